@@ -211,3 +211,95 @@ def hierarchy(h, j, sysm, t, q, u, ud, levels, dq=None, prefix=""):
     if "Wla_g_q" in levels:
         la = h.vec("la", j.nla_g)
         h.eq(prefix + "Wla_g_q", h.D(lambda q_: j.W_g(t, q_[qD]) @ la, (q,), (dq,)), j.Wla_g_q(t, q[qD], la) @ dq[qD])
+
+
+# ----------------------------------------------------------------------------- revolute pair on its manifold
+def int_quat(rng):
+    while True:
+        P = [int(x) for x in rng.integers(-3, 4, size=4)]
+        if sum(x * x for x in P) > 0 and sum(1 for x in P if x) >= 2:
+            return P
+
+
+def quat_rot_exact(h, P):
+    """exact rational rotation matrix of the integer quaternion P"""
+    from fractions import Fraction
+    n2 = sum(x * x for x in P)
+    p0, p1, p2, p3 = P
+    F = lambda x: Fraction(x, n2)
+    A = [[F(p0*p0 + p1*p1 - p2*p2 - p3*p3), F(2*(p1*p2 - p0*p3)), F(2*(p1*p3 + p0*p2))],
+         [F(2*(p1*p2 + p0*p3)), F(p0*p0 - p1*p1 + p2*p2 - p3*p3), F(2*(p2*p3 - p0*p1))],
+         [F(2*(p1*p3 - p0*p2)), F(2*(p2*p3 + p0*p1)), F(p0*p0 - p1*p1 - p2*p2 + p3*p3)]]
+    return h.arr([[h.const(x) for x in row] for row in A])
+
+
+class RevolutePair:
+    """two rigid bodies (or frame + rigid body) connected by a Revolute joint, both bodies initially unrotated, joint
+    frame given by an integer quaternion; provides states on the joint manifold parametrised by the joint angle"""
+
+    def __init__(self, h, seed=0, axis=2, first="RB", angle0=0.0, extra=None):
+        from cardillo import System
+        from cardillo.discrete import RigidBody, Frame
+        from cardillo.constraints import Revolute
+        rng = np.random.default_rng(seed + 101)
+        self.h = h
+        self.axis = axis
+        self.first = first
+        r_a0 = np.round(rng.normal(size=3) * 4) / 4
+        r_b0 = np.round(rng.normal(size=3) * 4) / 4
+        self.r_J0 = np.round(rng.normal(size=3) * 4) / 4
+        self.pJ = int_quat(rng)
+        self.A_IJ0 = quat_rot_exact(h, self.pJ)
+        e0 = np.array([1.0, 0, 0, 0])
+        if first == "RB":
+            self.a = RigidBody(1.5, np.diag([1.0, 2.0, 3.0]), q0=np.concatenate([r_a0, e0]), name="a")
+        else:
+            self.a = Frame(r_OP=r_a0, name="a")
+        self.b = RigidBody(2.0, np.diag([2.0, 1.0, 1.5]), q0=np.concatenate([r_b0, e0]), name="b")
+        self.B1 = self.r_J0 - r_a0
+        self.B2 = self.r_J0 - r_b0
+        self.r_a0 = r_a0
+        self.joint = Revolute(self.a, self.b, axis=axis, angle0=angle0, r_OJ0=self.r_J0, A_IJ0=self.A_IJ0, name="rev")
+        self.sysm = System()
+        self.sysm.add(self.a, self.b, self.joint)
+        for c in (extra(self) if extra else []):
+            self.sysm.add(c)
+
+    def state(self, prefix="", with_rate=True, concrete_orientation=False):
+        """(t, q, u, phi, phid) with the joint closed at angle phi and relative rate phid; body a free"""
+        from cardillo.math import Exp_SO3_quat, quatprod, cross3
+        h = self.h
+        t = h.real(prefix + "t")
+        phi = h.angle(prefix + "phi")
+        w = np.tan(0.5 * phi)
+        phid = h.real(prefix + "phid") if with_rate else 0.0
+        e = np.eye(3)[self.axis]
+        pax = h.arr([1.0, *(w * e)])
+        pJ = np.array(self.pJ, dtype=float)
+        pJc = pJ * np.array([1.0, -1, -1, -1])
+        if self.first == "RB":
+            r1 = h.vec(prefix + "r1", 3)
+            # concrete orientation as exact rational constants (float division in Exp_SO3_quat would round)
+            P1 = h.arr([h.const(x) for x in int_quat(np.random.default_rng(7))]) if concrete_orientation else h.quat(prefix + "P1")
+            v1, om1 = h.vec(prefix + "v1", 3), h.vec(prefix + "om1", 3)
+            A1 = Exp_SO3_quat(P1)
+        else:
+            r1, P1 = self.r_a0, np.array([1.0, 0, 0, 0])
+            v1, om1 = np.zeros(3), np.zeros(3)
+            A1 = np.eye(3)
+        P2 = quatprod(quatprod(quatprod(P1, pJ), pax), pJc)
+        A2 = Exp_SO3_quat(P2)
+        rJ = r1 + A1 @ self.B1
+        r2 = rJ - A2 @ self.B2
+        e_c = (A1 @ self.A_IJ0)[:, self.axis]
+        Om2 = A1 @ om1 + phid * e_c
+        om2 = A2.T @ Om2
+        vJ = v1 + A1 @ cross3(om1, self.B1)
+        v2 = vJ - A2 @ cross3(om2, self.B2)
+        if self.first == "RB":
+            q = np.concatenate([r1, P1, r2, P2])
+            u = np.concatenate([v1, om1, v2, om2])
+        else:
+            q = np.concatenate([r2, P2])
+            u = np.concatenate([v2, om2])
+        return t, q, u, phi, phid
